@@ -257,15 +257,23 @@ func genMemio(r *rng, out *bufio.Writer, n int) {
 			fmt.Fprintf(out, "put %d ffff %02x%02x\nput %d 0000 %02x%02x\nequal %d %d\nequal %d %d\n", a, val(), val(), b, val(), val(), a, b, b, a)
 		}
 		nops := 20 + r.n(60)
+		written := map[int][]uint16{} // addresses written so far through each variable: reads go back to them half of the time
+		var writtenP []uint8
 		for k := 0; k < nops; k++ {
 			switch r.n(16) {
 			case 0, 1, 2:
 				if i := pick([]string{"dm", "mm"}[r.n(2)]); i >= 0 {
-					fmt.Fprintf(out, "set %d %04x %02x\n", i, addrFor(i), val())
+					a := addrFor(i)
+					written[i] = append(written[i], a)
+					fmt.Fprintf(out, "set %d %04x %02x\n", i, a, val())
 				}
 			case 3, 4, 5:
 				if i := pick([]string{"dm", "mm"}[r.n(2)]); i >= 0 {
-					fmt.Fprintf(out, "get %d %04x\n", i, addrFor(i))
+					a := addrFor(i)
+					if len(written[i]) > 0 && r.chance(60) {
+						a = written[i][r.n(len(written[i]))]
+					}
+					fmt.Fprintf(out, "get %d %04x\n", i, a)
 				}
 			case 6, 7:
 				if i := pick([]string{"dm", "mm"}[r.n(2)]); i >= 0 {
@@ -288,15 +296,24 @@ func genMemio(r *rng, out *bufio.Writer, n int) {
 					if ln > 0 {
 						ds = hex.EncodeToString(d)
 					}
+					for j := 0; j < ln && j < 3; j++ {
+						written[i] = append(written[i], a+uint16(r.n(ln)))
+					}
 					fmt.Fprintf(out, "put %d %04x %s\n", i, a, ds)
 				}
 			case 8:
 				if i := pick("dio"); i >= 0 {
-					fmt.Fprintf(out, "out %d %02x %02x\n", i, uint8(addrFor(i)), r.b8())
+					p := uint8(addrFor(i))
+					writtenP = append(writtenP, p)
+					fmt.Fprintf(out, "out %d %02x %02x\n", i, p, r.b8())
 				}
 			case 9:
 				if i := pick("dio"); i >= 0 {
-					fmt.Fprintf(out, "in %d %02x\n", i, uint8(addrFor(i)))
+					p := uint8(addrFor(i))
+					if len(writtenP) > 0 && r.chance(55) {
+						p = writtenP[r.n(len(writtenP))]
+					}
+					fmt.Fprintf(out, "in %d %02x\n", i, p)
 				}
 			case 10:
 				if i := pick("mm"); i >= 0 {
